@@ -71,7 +71,7 @@ func runRealAuth(in realIn) *realOut {
 	trs := map[[2]int]*transport{}
 	handshake := func(n, c, kind int) error {
 		sm := fx[n].Session
-		ct := map[int]string{0: "control", 1: "tunnel", 2: "", 3: "control"}[kind]
+		ct := map[int]string{0: "control", 1: "tunnel", 2: "", 3: "control", 4: "control"}[kind]
 		send := func(resp string) error {
 			req := map[string]interface{}{"client_id": x, "version": "V3", "protocol": "tcp"}
 			if ct != "" {
@@ -86,6 +86,9 @@ func runRealAuth(in realIn) *realOut {
 		}
 		if err := send(""); err != nil {
 			return fmt.Errorf("phase 1: %w", err)
+		}
+		if kind == 4 { // a phase-1 message only (the client never answers the challenge): nothing is proven by it
+			return nil
 		}
 		cc := sm.GetControlConnection(connName(c))
 		if cc == nil {
@@ -112,7 +115,7 @@ func runRealAuth(in realIn) *realOut {
 			_, err = fx[n].Session.AcceptConnection(t, t)
 		case 1:
 			err = handshake(n, c, arg(o, 3))
-			if err == nil && arg(o, 3) != 1 && arg(o, 3) != 3 {
+			if err == nil && arg(o, 3) != 1 && arg(o, 3) != 3 && arg(o, 3) != 4 {
 				curN, curC, curOK = n, c, true
 			}
 			if arg(o, 3) == 3 {
